@@ -321,6 +321,7 @@ const (
 	aTR    = "tr"    // boolean value is true/false
 	aVALID = "valid" // reflect.Value is valid (non-zero Value)
 	aCANIF = "canif" // reflect.Value may be passed to Interface()
+	aDID   = "did"   // the call instruction was executed on this path
 )
 
 type Fact struct {
